@@ -187,10 +187,14 @@ func forgedMultiOffenders(rng *rand.Rand) []*Target {
 			case "san-vary":
 				names := base.NamesOfExt("2.5.29.17")
 				var dns *forge.Node
-				for _, n := range names {
-					if n.Tag() == 0x82 && strings.Count(string(n.Body()), ".") >= 1 {
+				for _, n := range names { // the LAST .onion name if there is one (rules about onion names count them), else the first dotted name
+					if n.Tag() == 0x82 && strings.HasSuffix(string(n.Body()), ".onion") && strings.Count(string(n.Body()), ".") >= 1 {
 						dns = n
-						break
+					}
+				}
+				for _, n := range names {
+					if dns == nil && n.Tag() == 0x82 && strings.Count(string(n.Body()), ".") >= 1 {
+						dns = n
 					}
 				}
 				if dns == nil {
